@@ -360,6 +360,15 @@ def blen(x):
             if isinstance(n, int) and not isinstance(n, bool) and (lo is None or (isinstance(lo, int) and not isinstance(lo, bool))) and \
                     (hi is None or (isinstance(hi, int) and not isinstance(hi, bool))):
                 return len(range(*slice(lo, hi).indices(n)))
+            if isinstance(n, int) and isinstance(lo, T) and isinstance(hi, T) and veq(hi, add([1, lo])):
+                # base[v:v+1] with v confined to the valid indices: exactly one element
+                from . import ival as _ival
+                try:
+                    l_, h_ = _ival.interval(lo, [])
+                except RecursionError:
+                    l_ = h_ = None
+                if l_ is not None and h_ is not None and 0 <= l_ and h_ < n:
+                    return 1
         if x.op == "fmt" and isinstance(x.args[1], str) and x.args[1].startswith("0") and x.args[1][-1:] in ("b", "x") and x.args[1][1:-1].isdigit():
             # format(v, "0Nb") / "0Nx" is exactly N characters when v is known to fit (v read from at most N bits of bytes)
             w = int(x.args[1][1:-1])
@@ -496,6 +505,8 @@ def idx(x, i):
                 nb = blen(x.args[0])
                 if isinstance(nb, int) and (x.args[1] is None or isinstance(x.args[1], int)) and (x.args[2] is None or isinstance(x.args[2], int)):
                     return idx(x.args[0], range(*slice(x.args[1], x.args[2]).indices(nb))[i])
+                if n == 1 and i == 0 and isinstance(x.args[1], T):
+                    return idx(x.args[0], x.args[1])  # base[v:v+1][0] is base[v]
     if isinstance(x, T) and x.op == "map" and x.args[2] is None:
         body, it = x.args[0], x.args[1]
         depths = [s.args[0] for s in subterms(body) if isinstance(s, T) and s.op in ("bv", "bvi")]
@@ -670,6 +681,21 @@ def cmp(op, a, b):
                 return a is not b if (a is None or b is None or isinstance(a, bool)) else a != b
         except TypeError:
             pass
+    if op in ("in", "notin") and isinstance(a, T) and a.op == "idx" and isinstance(a.args[0], bytes) and isinstance(a.args[1], T) and \
+            isinstance(b, (tuple, bytes, list, set, frozenset)) and all(isinstance(x, int) for x in b):
+        # TABLE[v] for a constant byte table and an index confined to a range: a member of the set when every entry in that
+        # range is (the characters an encoder emits from 5-bit values are characters of the alphabet)
+        from . import ival as _ival
+        try:
+            lo_, hi_ = _ival.interval(a.args[1], [])
+        except RecursionError:
+            lo_ = hi_ = None
+        if lo_ is not None and hi_ is not None and 0 <= lo_ <= hi_ < len(a.args[0]):
+            vals_ = set(a.args[0][lo_:hi_ + 1])
+            if vals_ <= set(b):
+                return op == "in"
+            if not (vals_ & set(b)):
+                return op == "notin"
     if op in ("eq", "ne") and isinstance(a, (list, tuple)) and isinstance(b, (list, tuple)) and type(a) is type(b) and \
             not (a and isinstance(a[0], str) and a[0].startswith("#")) and not (b and isinstance(b[0], str) and b[0].startswith("#")):
         # two sequences of known structure: equal iff same length and equal element by element
@@ -691,6 +717,8 @@ def cmp(op, a, b):
             return op == "isnot"  # a list / tuple / ... of known structure (whatever its elements) is not None
         if isinstance(other, T) and other.op in _NEVER_NONE:
             return op == "isnot"
+        if isinstance(other, T) and other.op == "idx" and tyof(_unfz1(other.args[0])) == BYTES:
+            return op == "isnot"  # an element of a byte string is an integer
     # canonical orientation: constant on the right; gt/ge rewritten to lt/le
     if op in CMP_SWAP and (not isinstance(a, T)) and isinstance(b, T):
         a, b, op = b, a, CMP_SWAP[op]
@@ -784,6 +812,14 @@ def truth(a):
         n = blen(a)
         if isinstance(n, int) and not isinstance(n, bool):
             return n > 0  # bytes of a known length are true iff that length is not zero
+    if a.op == "m:translate" and len(a.args) == 3 and a.args[1] is None and isinstance(a.args[2], bytes):
+        # x.translate(None, DELETE) is what remains of x after deleting the bytes of DELETE: non-empty iff some byte of x is
+        # not in DELETE -- for x of known length, byte by byte
+        x_ = _unfz_shallow(a.args[0])
+        n = blen(x_) if isinstance(x_, (T, bytes)) else None
+        if isinstance(n, int) and not isinstance(n, bool) and n <= 512:
+            members = tuple(sorted(set(a.args[2])))
+            return lor([cmp("notin", idx(x_, i), members) for i in range(n)])
     if a.op == "band" and len(a.args) == 2 and 128 in a.args and any(_is_byte_term(x) for x in a.args):
         y = [x for x in a.args if _is_byte_term(x)][0]
         return cmp("ge", y, 128)  # the top bit of a byte is set  <=>  the byte is >= 0x80
@@ -812,6 +848,16 @@ def land(items):
         if a not in out:
             out.append(a)
     out = _merge_membership(out, "ne", "notin")
+    # len(x) == k and D.startswith(x)   is   x == D[:k]   (and likewise endswith / D[-k:])
+    for sw in [a for a in out if isinstance(a, T) and a.op in ("startswith", "endswith") and len(a.args) == 2]:
+        D, x = sw.args
+        for lc in out:
+            if isinstance(lc, T) and lc.op == "cmp" and lc.args[0] == "eq":
+                l_, k_ = (lc.args[1], lc.args[2]) if isinstance(lc.args[2], int) else (lc.args[2], lc.args[1])
+                if isinstance(k_, int) and not isinstance(k_, bool) and k_ > 0 and isinstance(l_, T) and veq(l_, length(x)):
+                    piece = slc(D, None, k_) if sw.op == "startswith" else slc(D, -k_, None)
+                    out = [a for a in out if a is not sw and a is not lc] + [cmp("eq", x, piece)]
+                    break
     if not out:
         return True
     if len(out) == 1:
@@ -946,6 +992,11 @@ def join(sep, lst):
                 return cat(parts)
         if isinstance(sep, str) and all(isinstance(e, str) for e in lst):
             return sep.join(lst)
+    if isinstance(lst, T) and lst.op == "ite" and len(lst.args) == 3:
+        a_, b_ = _unfz_shallow(lst.args[1]), _unfz_shallow(lst.args[2])
+        if isinstance(a_, (list, tuple)) and isinstance(b_, (list, tuple)) and not (a_ and isinstance(a_[0], str) and str(a_[0]).startswith("#")) and \
+                not (b_ and isinstance(b_[0], str) and str(b_[0]).startswith("#")):
+            return ite(lst.args[0], join(sep, list(a_)), join(sep, list(b_)))  # joining either of two lists of known structure
     if isinstance(lst, T) and lst.op == "lcat" and sep in (b"", ""):
         # joining a concatenation of lists with the empty separator: the joined pieces, concatenated
         pieces = [join(sep, _unfz_shallow(p)) for p in lst.args]
